@@ -94,6 +94,7 @@ enum Beh : std::uint8_t {
   kThrow = 7,        // the callback throws instead of returning
   kInnerStep = 8,    // Fut: ready future with its own ThenInline step / Task: MakeTask with a lazy ThenInline step
   kLazyContract = 9, // Task: LazyContract head (known-finding cell)
+  kInnerInherit = 10, // Task: MakeTask(...).Then(f): the inner step inherits the inner head's (inline) executor, not the outer step's
 };
 
 struct Step {
@@ -477,8 +478,8 @@ class Case final : public sim::CaseBase {
       }
       default: {
         // the last two are the known-finding cell (DESIGN §5 D3): sampled, but rarely
-        static const std::uint8_t b[] = {kPlain, kError, kInnerStep, kThrow, kPlain, kError, kInnerStep, kThrow, kPlain, kError,
-                                         kInnerStep, kThrow, kPlain, kInnerStep, kRunOnExec, kLazyContract};
+        static const std::uint8_t b[] = {kPlain, kError, kInnerStep, kThrow, kInnerInherit, kError, kInnerStep, kThrow, kPlain, kInnerInherit,
+                                         kInnerStep, kThrow, kInnerInherit, kInnerStep, kRunOnExec, kLazyContract};
         return b[g.Draw(16)];
       }
     }
@@ -715,6 +716,11 @@ class Case final : public sim::CaseBase {
         case kInnerStep:
           return Tsk<T>{yaclib::MakeTask<T, E>(T{id + 7}).ThenInline([id](T&& v) {
             (void)v.Read("inner lazy ThenInline step");
+            return T{id};
+          })};
+        case kInnerInherit:
+          return Tsk<T>{yaclib::MakeTask<T, E>(T{id + 7}).Then([id](T&& v) {
+            (void)v.Read("inner lazy Then(f) step");
             return T{id};
           })};
         case kRunOnExec:
